@@ -449,7 +449,7 @@ def run(rep, tier, seed):
                     rep.crash(r, c)
     # the assert-enabled configuration (README default build): library asserts act as invariant monitors
     rng2 = random.Random(seed * 7 + 11)
-    acases = model_cases(rng2, 700 * k) + part_cases(rng2, 700 * k) + query_cases(rng2, 300 * k)
+    acases = model_cases(rng2, 2500 * k) + part_cases(rng2, 2500 * k) + query_cases(rng2, 2000 * k) + xta_cases(rng2, 500 * k)
     ares = run_cases([c for _, c in acases], variant="asan-assert")
     n_assert = 0
     for tag, c in acases:
